@@ -227,7 +227,13 @@ Fixpoint started (acts : list aspec) : list aspec :=
    teardown actions: registered when the task is started (runner.py 190-191), executed by finish()
    in reverse order of registration (252-260) -- run_all calls finish() in a `finally` clause
    (279-283), so also when an exception escaped from an action.  [tds]: the teardowns registered
-   so far.  (Teardown actions whose own exception escapes are not modelled.) *)
+   so far.  (Teardown actions whose own exception escapes are not modelled.)
+   A run that ends with a user error before any task is started (cmd_run.py 204-208: TaskControl /
+   control.process raise InvalidCommand / InvalidTask / InvalidDodoFile; option parsing) is
+   [run_ops v [] []] = []: no event.  What the `run` command does to the cells OUTSIDE action
+   executions is not part of this model: JsonReporter.__init__ (reporter.py 228-233) installs
+   StringIO objects, complete_run (276-280) puts the saved ones back -- see Model/Report.v
+   (w_swapped / init / unswap); harness/c17.py part H exercises it. *)
 Record tspec := { t_capture : bool; t_acts : list aspec; t_teardown : list aspec }.
 Fixpoint run_ops (v : Z) (tasks : list tspec) (tds : list sop) : list sop :=
   match tasks with
